@@ -37,7 +37,7 @@ class Env(object):
         # MethodContext.close() runs a full gc.collect() at most every MIN_GC_INTERVAL seconds; with the
         # harness's growing heap that dominates long runs (cf. test_null_server.py::test_no_gc_collect)
         spyne.const.MIN_GC_INTERVAL = float('inf')
-        from spyne import Application, Service, srpc, rpc, Ignored, Fault, MethodContext
+        from spyne import Application, Service, srpc, rpc, mrpc, Ignored, Fault, MethodContext
         from spyne.model.primitive import Unicode, Integer, Boolean
         from spyne.model.complex import ComplexModel, ComplexModelBase, Array, Iterable
         from spyne.protocol.xml import XmlDocument
@@ -64,6 +64,7 @@ class Env(object):
             __namespace__ = TNS
 
         self.P, self.Q, self.Ack = P, Q, Ack
+        self.classes = {'P': P, 'Q': Q, 'Ack': Ack}       # canonical class name -> class (member classes are added)
         self.types = {'int': Integer, 'str': Unicode, 'bool': Boolean, 'P': P, 'Q': Q, 'Ack': Ack,
                       'arr': Array(Integer), 'iter': Iterable(Integer)}
         self.fields = {'P': [('a', 'int'), ('b', 'str')], 'Q': [('x', 'str'), ('n', 'int'), ('p', 'P'), ('f', 'bool')]}
@@ -162,7 +163,7 @@ def native(c, E=None):
     if 'l' in c:
         return [native(x, E) for x in c['l']]
     if 'o' in c:
-        cls = {'P': E.P, 'Q': E.Q, 'Ack': E.Ack}[c['o'][0]]
+        cls = E.classes[c['o'][0]]
         return cls(**{k: native(x, E) for k, x in c['o'][1]})
     raise ValueError(c)
 
@@ -244,16 +245,24 @@ class Program(object):
         self.E, self.spec = E, spec
         self.sig, self.script = spec['sig'], spec['script']
         self.name = spec.get('name', 'meth')
+        self.opts = spec.get('opts') or {}
+        self.member = spec['sig'].get('member')
+        # the public name of the method: what a request is dispatched on (in-message name)
+        self.pub = self.opts.get('in_msg') or self.opts.get('op_name') or self.name
+        if self.member:
+            self.pub = '%s.%s' % (self.member['cls'], self.pub)
         self.recv = None
         self.aux_recv = []          # [(index of the auxiliary method, canonical received arguments)] in call order
         self.decor_error = None
         self.apps, self.servers, self.clients = {}, {}, {}
         self.null = None
         self.held = None            # a kept `_FunctionCall` object: f = server.service.<name>
+        self.ostr = {}              # protocol -> NullServer(app, ostr=True)
+        self.member_cls = None
         self.aux_svcs = []
         try:
             self.svc = self._service()
-            self.desc = self.svc.public_methods[self.name]
+            self.desc = self.member_cls.Attributes.methods[self.name] if self.member else self.svc.public_methods[self.name]
             self.aux_svcs = [self._service(i, a) for i, a in enumerate(spec.get('auxs') or [])]
         except Exception as e:
             self.decor_error = type(e).__name__
@@ -267,18 +276,74 @@ class Program(object):
         E = self.E
         sig = self.sig if aux is None else aux['sig']
         script = self.script if aux is None else aux['script']
-        ptypes = [E.types[t] for t in self.spec['ptypes']]
+        opts = self.opts if aux is None else {k: v for k, v in self.opts.items() if k in ('in_msg', 'op_name', 'arg_names', 'args')}
+        member = self.member if aux is None else None
+        params = list(sig['params'])
+        if member:
+            from spyne.model.complex import SelfReference
+            # a parameter of the method's own class is spelled SelfReference
+            ptypes = [SelfReference if t == member['cls'] else E.types[t] for t in self.spec['ptypes'][1:]]
+        else:
+            ptypes = [E.types[t] for t in self.spec['ptypes']]
+        if member:
+            params = params[1:]                             # `self` is implicit
         kp = {}
         r = self.spec['rtypes'] if aux is None else aux['rtypes']
         if sig['returns'] is not None:
-            kp['_returns'] = [E.types[t] for t in r] if 'many' in sig['returns'] else E.types[r[0]]
-        if sig['style'] != 'wrapped' or self.spec.get('explicit_style'):
+            if member and list(r) == [member['cls']]:
+                from spyne.model.complex import SelfReference
+                kp['_returns'] = SelfReference              # "my own class", resolved by the decorator
+            else:
+                kp['_returns'] = [E.types[t] for t in r] if 'many' in sig['returns'] else E.types[r[0]]
+        spelling = opts.get('style_spelling')
+        if spelling:                                        # e.g. ('wrapped', 'rpc') is another way to say bare
+            if spelling[0] is not None:
+                kp['_body_style'] = spelling[0]
+            if spelling[1] is not None:
+                kp['_soap_body_style'] = spelling[1]
+        elif sig['style'] != 'wrapped' or self.spec.get('explicit_style'):
             kp['_body_style'] = sig['style']
+        # the names in the code differ from the public ones
+        code = list(params)
+        if opts.get('arg_names'):
+            code = ['c_' + p for p in params]
+            kp['_in_variable_names' if opts['arg_names'] == 'variable' else '_in_arg_names'] = dict(zip(code, params))
+        if opts.get('out_names') and aux is None and sig['style'] == 'wrapped' and sig['returns'] is not None:
+            if 'many' in sig['returns']:
+                kp['_out_variable_names'] = ['out%d_%s' % (i, self.name) for i in range(sig['returns']['many'])]
+            else:
+                kp['_out_variable_name'] = 'the_result'
+        if opts.get('op_name'):
+            kp['_operation_name'] = opts['op_name']
+        if opts.get('in_msg'):
+            kp['_in_message_name'] = opts['in_msg']
+        if opts.get('out_msg') and aux is None:
+            kp['_out_message_name'] = opts['out_msg']
+        if opts.get('part') and aux is None:
+            kp['_wsdl_part_name'] = 'parameters'
+        for k in opts.get('inert', []) if aux is None else []:
+            kp[k] = {'_throws': [E.Fault], '_faults': [E.Fault], '_udd': {'k': 1}, '_udp': {'k': 1}, '_logged': False,
+                     '_port_type': None, '_translations': {'en_US': 'x'}, '_href': None, '_internal_key_suffix': '_x'}[k]
+        if member and member.get('default_on_null'):
+            kp['_default_on_null'] = True
+        if member and member.get('when') is not None:
+            verdict = bool(member['when'])
+            kp['_when'] = lambda inst, ctx: verdict
+        if member and member.get('svc_class'):
+            # the call goes through a Service's call_wrapper (event handlers of that service apply)
+            kp[member['svc_class']] = type('MemberSvc_' + self.name, (E.Service,), {})
+        for k in (opts.get('evmgr') or []) if aux is None else []:
+            from spyne import EventManager
+            kp[k] = [EventManager(None)] if k.endswith('s') else EventManager(None)
         prog = self
-        params = list(sig['params'])
         with_ctx = self.spec.get('with_ctx', False)
-        src = 'def %s(%s):\n    return _body((%s))\n' % (
-            self.name, ', '.join((['ctx'] if with_ctx else []) + params), ''.join(p + ', ' for p in params))
+        head = (['self'] if member else []) + (['ctx'] if with_ctx else [])
+        if opts.get('args'):
+            kp['_args'] = list(code)                        # argument names are given, not introspected
+            src = 'def %s(%s):\n    return _body(%s_a)\n' % (self.name, ', '.join(head + ['*_a']), '(self,) + ' if member else '')
+        else:
+            src = 'def %s(%s):\n    return _body((%s))\n' % (
+                self.name, ', '.join(head + code), ''.join(p + ', ' for p in (['self'] if member else []) + code))
 
         def _body(recv):
             if aux is None:
@@ -289,11 +354,31 @@ class Program(object):
         glob = {'_body': _body}
         exec(src, glob)
         fn = glob[self.name]
+        if member:
+            kp['_no_ctx'] = not with_ctx
+            cls = type(member['cls'], (E.ComplexModel,), {
+                '__namespace__': TNS, '_type_info': [(f, E.types[t]) for f, t in member['ftypes']],
+                self.name: E.mrpc(*ptypes, **kp)(fn)})
+            E.classes[member['cls']] = cls
+            E.types[member['cls']] = cls
+            self.member_cls = cls
+            # a member method is published when its class appears in a service
+            return type('Svc_' + self.name, (E.Service,), {'get_' + self.name: E.srpc(_returns=cls)(lambda: None)})
         deco = (E.rpc if with_ctx else E.srpc)(*ptypes, **kp)
         ns = {self.name: deco(fn)}
         if aux is not None:
             ns['__aux__'] = E.SyncAuxProc()
-        return type(('Svc_' if aux is None else 'Aux%d_' % aux_index) + self.name, (E.Service,), ns)
+        if opts.get('base_service') and aux is None:
+            # a service base class with an event handler of its own: handlers are inherited, results are not changed
+            base = type('Base_' + self.name, (E.Service,), {})
+            base.event_manager.add_listener('method_call', lambda ctx: None)
+            ns_base = base
+        else:
+            ns_base = E.Service
+        if opts.get('service_name') and aux is None:
+            ns['__service_name__'] = 'Named' + self.name
+            ns['__service_module__'] = 'c18.generated'
+        return type(('Svc_' if aux is None else 'Aux%d_' % aux_index) + self.name, (ns_base if aux is None else E.Service,), ns)
 
     def aux_canon(self):
         """the arguments each auxiliary function received, by index of the companion"""
@@ -306,9 +391,35 @@ class Program(object):
     def null_server(self):
         if self.null is None:
             E = self.E
-            app = E.Application(self.services(), TNS, in_protocol=E.XmlDocument(), out_protocol=E.XmlDocument())
+            if self.opts.get('no_proto'):        # "It's only optional for NullServer transport"
+                app = E.Application(self.services(), TNS)
+            else:
+                app = E.Application(self.services(), TNS, in_protocol=E.XmlDocument(), out_protocol=E.XmlDocument())
             self.null = E.NullServer(app)
         return self.null
+
+    def proxy(self, server):
+        """`server.service.<name>`, or `server.service['Class.name']` where the name is not an identifier"""
+        if self.member or self.opts.get('by_item') or not self.pub.isidentifier():
+            return server.service[self.pub]
+        return getattr(server.service, self.pub)
+
+    def call_ostr(self, proto, pos, kw):
+        """the string mode: `NullServer(app, ostr=True)` returns the serialised reply; decode it like a wire reply"""
+        E = self.E
+        self.recv = None
+        self.aux_recv = []
+        try:
+            server, capp = self.wire(proto)
+            if proto not in self.ostr:
+                self.ostr[proto] = E.NullServer(server.app, ostr=True)
+            ret = self.proxy(self.ostr[proto])(*[native(x, E) for x in pos], **{k: native(v, E) for k, v in kw})
+            raw = b''.join(ret)
+        except E.Fault as e:
+            return {'fault': fault_code(e.faultcode)}
+        except Exception as e:
+            return {'exc': type(e).__name__}
+        return self.parse_response(proto, capp, raw)
 
     def call_null(self, pos, kw, held=False):
         """one call through NullServer: on a fresh `server.service.<name>` or on the kept function object"""
@@ -318,10 +429,10 @@ class Program(object):
         try:
             if held:
                 if self.held is None:
-                    self.held = getattr(self.null_server().service, self.name)
+                    self.held = self.proxy(self.null_server())
                 f = self.held
             else:
-                f = getattr(self.null_server().service, self.name)
+                f = self.proxy(self.null_server())
             r = f(*[native(x, E) for x in pos], **{k: native(v, E) for k, v in kw})
             out = {'ok': canon_val(r, E)}
         except E.Fault as e:
@@ -344,7 +455,7 @@ class Program(object):
 
     def client_ctx(self, capp):
         E = self.E
-        rp = E.RemoteProcedureBase('mem://', capp, self.name)
+        rp = E.RemoteProcedureBase('mem://', capp, self.pub)
         return rp.contexts[0]       # the primary context (auxiliary companions follow it)
 
     def bound_args(self, pos, kw):
@@ -404,10 +515,10 @@ class Program(object):
             for k, t, v in zip(keys, self.in_types(), vals):
                 if v is not None:
                     body[k] = p._to_dict_value(t, v, set())
-            return json.dumps({self.name: body}).encode('utf8')
+            return json.dumps({self.pub: body}).encode('utf8')
         p = capp.out_protocol
         ctx = self.client_ctx(capp)
-        root = etree.Element('{%s}%s' % (TNS, self.name), nsmap={'tns': TNS})
+        root = etree.Element('{%s}%s' % (TNS, self.pub), nsmap={'tns': TNS})
         for k, t, v in zip(keys, self.in_types(), vals):
             if v is not None:
                 ns = in_msg.get_namespace() if self.sig['style'] == 'bare' else TNS
@@ -440,8 +551,8 @@ class Program(object):
                     inst = p._doc_to_object(ctx, out_msg, doc)
                     return {'ok': {'l': [canon_wire(getattr(inst, k, None), E) for k in keys]}}
                 if no_return(sig):
-                    return self.nothing(None if doc is None else p._from_dict_value(ctx, self.name, out_msg, doc, None))
-                v = None if doc is None else p._from_dict_value(ctx, self.name, out_msg, doc, None)
+                    return self.nothing(None if doc is None else p._from_dict_value(ctx, self.pub, out_msg, doc, None))
+                v = None if doc is None else p._from_dict_value(ctx, self.pub, out_msg, doc, None)
                 return {'ok': canon_wire(v, E)}
             root = E.etree.fromstring(raw)
             if proto == 'soap':
@@ -577,6 +688,15 @@ def _measure_facts(E):
             return True
         return False if got[1] == {'ok': [{'s': 'b'}, {'i': '8'}, {'i': '2'}]} else 'other:' + json.dumps(got)
     f['slotsPerCall'] = _safe(slots_per_call, 'other:exc:')
+    # ostrIgnored: the string mode with an Ignored result
+    def ostr_ignored():
+        w = fact_witness('ostrIgnored')
+        p = Program(E, spec_of(w['sig'], w['ptypes'], w['rtypes'], w['script'], 'probe'))
+        outs = [p.call_ostr(proto, w['pos'], w['kw']) for proto in PROTOS]
+        if all(o == {'ok': None} for o in outs):
+            return 'dropped'
+        return 'serialized' if all(o == {'exc': 'TypeError'} for o in outs) else 'other:' + json.dumps(outs)
+    f['ostrIgnored'] = _safe(ostr_ignored, 'other:exc:')
     # ignMany: what get_out_object leaves in ctx.out_object for a lone Ignored with 3 declared return values
     def ign_many():
         p = prog('wrapped', [], [], {'many': 3}, ['int', 'int', 'int'], {'k': 'ignored', 'v': {'i': '1'}})
@@ -624,7 +744,7 @@ def _measure_facts(E):
 
 GOOD = {'isOutBare': {'WRAPPED': False, 'EMPTY': True, 'BARE': True, 'OUT_BARE': True, 'EMPTY_OUT_BARE': True},
         'wrapUpTo': 1, 'cbOrder': 'noReturnFirst', 'ignMany': 'nones', 'ewWrapper': True, 'ewMembers': True,
-        'auxResult': 'primaryOnly', 'slotsPerCall': True}
+        'auxResult': 'primaryOnly', 'slotsPerCall': True, 'ostrIgnored': 'dropped'}
 GOOD_PROTO = {'bareOut': 'first', 'bareIn': 'methodName', 'noneSingle': 'nil'}
 
 
@@ -657,6 +777,7 @@ def facts18 : Facts18 where
   ignMany := .%s
   auxResult := .%s
   slotsPerCall := %s
+  ostrIgnored := .%s
   xml := %s
   soap := %s
   json := %s
@@ -668,6 +789,7 @@ end SpyneModel.Generated
        b(f['ewWrapper'] is True), b(f['ewMembers'] is True),
        ctor(f['ignMany'], ('nones', 'emptyTuple'), 'emptyTuple'),
        ctor(f['auxResult'], ('primaryOnly', 'lastContext'), 'lastContext'), b(f['slotsPerCall'] is True),
+       ctor(f['ostrIgnored'], ('dropped', 'serialized'), 'serialized'),
        cfg(f['xml']), cfg(f['soap']), cfg(f['json']))
 
 
@@ -686,6 +808,10 @@ def fact_witness(name, proto=None):
     if name == 'bareIn':
         return dict(sig={'style': 'bare', 'params': ['p'], 'bareArg': P, 'returns': {'one': None}}, ptypes=['P'],
                     rtypes=['int'], script={'k': 'field', 'f': 'a'}, pos=[{'i': '5'}, {'s': 'q'}], kw=[], protos=[proto])
+    if name == 'ostrIgnored':
+        return dict(sig={'style': 'wrapped', 'params': ['a'], 'bareArg': None, 'returns': {'one': None}}, ptypes=['int'],
+                    rtypes=['int'], script={'k': 'ignored', 'v': {'i': '1'}}, pos=[{'i': '1'}], kw=[], protos=list(PROTOS),
+                    ostr=True)
     if name == 'auxResult':
         sig = {'style': 'wrapped', 'params': ['a'], 'bareArg': None, 'returns': {'one': None}}
         return dict(sig=sig, ptypes=['int'], rtypes=['int'], script={'k': 'pick', 'idx': [0]}, pos=[{'i': '7'}], kw=[],
@@ -738,6 +864,8 @@ def gen_value(rng, t, allow_none=True, depth=0):
         return {'l': [gen_value(rng, 'int', False) for _ in range(rng.choice([1, 1, 2, 3, 4]))]}
     if t == 'Ack':
         return {'o': ['Ack', []]}
+    if t in FIELDS and t not in ('P', 'Q'):
+        return {'o': [t, [[fn, gen_value(rng, ft)] for fn, ft in FIELDS[t]]]}
     if t == 'P':
         return {'o': ['P', [['a', gen_value(rng, 'int')], ['b', gen_value(rng, 'str')]]]}
     if t == 'Q':
@@ -778,7 +906,7 @@ def gen_script(rng, sig, ptypes, rtypes, recv_types, kind):
             idx.append(rng.choice(cands))
         if idx is not None and idx:
             return {'k': 'pick', 'idx': idx, 'many': many}
-        if sig['style'] == 'bare' and sig['bareArg'] and not many:
+        if ((sig['style'] == 'bare' and sig['bareArg']) or sig.get('member')) and not many:
             cands = [f for f, ft in FIELDS[recv_types[0]] if ft == rtypes[0]]
             if cands:
                 return {'k': 'field', 'f': rng.choice(cands)}
@@ -801,6 +929,59 @@ def gen_auxs(rng, sig, ptypes, n):
         auxs.append({'sig': asig, 'rtypes': rtypes,
                      'script': gen_script(rng, asig, ptypes, rtypes, recv_types_of(asig, ptypes), kind)})
     return auxs
+
+
+SPELLINGS = {'wrapped': [(None, None), ('wrapped', None), ('wrapped', 'document'), ('bare', 'document'), ('out_bare', 'document'),
+                         (None, 'rpc')],       # `_soap_body_style` alone is not looked at
+             'bare': [('bare', None), ('wrapped', 'rpc'), ('out_bare', 'rpc'), ('bare', 'rpc')],
+             'out_bare': [('out_bare', None)]}
+
+
+def gen_opts(rng, sig, i):
+    """decorator options that rename things or are pure metadata: none of them may change what a call returns"""
+    o = {}
+    if rng.random() < 0.5:
+        o['style_spelling'] = rng.choice(SPELLINGS[sig['style']])
+    if sig['style'] != 'bare' and rng.random() < 0.3:
+        o['arg_names'] = rng.choice(['arg', 'variable'])
+    if rng.random() < 0.3:
+        o['out_names'] = True
+    r = rng.random()
+    if r < 0.15:
+        o['op_name'] = 'Op%d' % i
+    elif r < 0.3:
+        o['in_msg'] = 'InMsg%d' % i
+    if rng.random() < 0.2:
+        o['out_msg'] = 'OutMsg%d' % i
+    if sig['style'] != 'bare' and rng.random() < 0.25:
+        o['args'] = True
+    if rng.random() < 0.2:
+        o['part'] = True
+    inert = [k for k in (rng.choice(['_throws', '_faults']), rng.choice(['_udd', '_udp']), '_logged', '_port_type',
+                         '_translations', '_href', '_internal_key_suffix') if rng.random() < 0.3]
+    if inert:
+        o['inert'] = inert
+    ev = [k for k in (rng.choice(['_evmgr', '_evmgrs']),) if rng.random() < 0.2] or \
+         [k for k in (rng.choice(['_event_manager', '_event_managers']),) if rng.random() < 0.2]
+    if ev:
+        o['evmgr'] = ev
+    if rng.random() < 0.15:
+        o['out_msg'] = '{c18.other}OutMsgNs%d' % i       # the response message in a namespace of its own
+    for k in ('no_proto', 'service_name', 'by_item', 'base_service'):
+        if rng.random() < 0.25:
+            o[k] = True
+    return o
+
+
+def gen_member(rng, i):
+    """a ComplexModel class for a member method: 1..3 fields of simple types"""
+    n = rng.choice([1, 2, 3])
+    ftypes = [['f%d' % k, rng.choice(['int', 'str', 'bool'])] for k in range(n)]
+    cls = 'M%d' % i
+    FIELDS[cls] = [tuple(x) for x in ftypes]
+    return {'cls': cls, 'fields': [f for f, _ in ftypes], 'ftypes': ftypes, 'default_on_null': rng.random() < 0.4,
+            'when': rng.choice([None, None, True, False]), 'svc_class': rng.choice([None, None, '_service_class', '_service']),
+            'self_ref': rng.random() < 0.5}
 
 
 def history_of(rng, groups, k):
@@ -895,6 +1076,8 @@ def gen_calls(rng, sig, ptypes, n):
     """conformant (pos, kw, tag) calls; the first is all-positional, all further ones carry the same argument values
     so that their results must be equal (keyword ≡ positional)"""
     keys = call_keys(sig, ptypes)
+    # the instance of a member method travels positionally: `self=` would bind to `_FunctionCall.__call__`'s own self
+    lead = 1 if sig.get('member') else 0
     groups = []
     for g in range(n):
         vals = [gen_value(rng, t, allow_none=(g > 0)) for _, t in keys]
@@ -903,8 +1086,8 @@ def gen_calls(rng, sig, ptypes, n):
         calls = [(list(vals), [], 'pos')]
         if keys:
             kwall = [[k, v] for (k, _), v in zip(keys, vals)]
-            calls.append(([], kwall, 'kw'))
-            i = rng.randrange(0, len(keys) + 1)
+            calls.append((list(vals[:lead]), kwall[lead:], 'kw'))
+            i = rng.randrange(lead, len(keys) + 1)
             rest = kwall[i:]
             rng.shuffle(rest)
             calls.append((list(vals[:i]), rest, 'split'))
@@ -916,10 +1099,10 @@ def gen_calls(rng, sig, ptypes, n):
             if j < len(vals):
                 calls.append((list(vals[:j]), [], 'pos-short'))
         calls.append((calls[0][0], calls[0][1] + [['zz_unknown', {'i': '1'}]], 'unknown-kw'))
-        if keys:
+        if len(keys) > lead:
             # NullServer's documented extras, not expressible in a Python call or on the wire (T2 only):
             # a keyword on top of a positional value replaces it -- unless the keyword value is None
-            j = rng.randrange(len(keys))
+            j = rng.randrange(lead, len(keys)) if len(keys) > lead else 0
             other = gen_value(rng, keys[j][1], allow_none=False)
             calls.append((list(vals), [[keys[j][0], other]], 'kw-over-positional'))
             calls.append((list(vals), [[keys[j][0], None]], 'kw-none-over-positional'))
@@ -1070,7 +1253,7 @@ class Runner(object):
             for pos, kw, tag in calls:
                 ctx.hit('shape:' + shape)
                 ctx.hit('call:' + tag)
-                q = {'op': 'null.call', 'sig': sig, 'script': spec['script'], 'pos': pos, 'kw': kw}
+                q = {'op': 'null.call', 'sig': sig, 'member': sig.get('member'), 'script': spec['script'], 'pos': pos, 'kw': kw}
                 recv, out = prog.call_null(pos, kw)
                 self.add(q, {'recv': recv, 'out': out})
                 ctx.hit('null:' + next(iter(out)))
@@ -1096,6 +1279,19 @@ class Runner(object):
                         ctx.cov['traces_validated_against_impl'] += 1
                         ok = (wout == exp) and (wrecv == recv)
                         ctx.hit('wire:%s:%s' % (proto, 'agree' if ok else 'differ'))
+                        if tag == 'pos' or (tag == 'kw' and ctx.thorough):
+                            # T3-g the string mode: NullServer(app, ostr=True) returns the reply a wire client gets
+                            oout = prog.call_ostr(proto, pos, kw)
+                            self.add(dict(q, op='null.ostr', proto=proto), {'out': oout})
+                            ctx.hit('ostr:%s:%s' % (proto, 'agree' if oout == wout else 'differ'))
+                            if oout != wout:
+                                self.t3_fail += 1
+                                k_ = spec['script']['k']
+                                ctx.hit('t3-fail:ostr')
+                                ctx.finding('ostr-vs-wire:%s:%s' % (proto, k_ if k_ in ('ignored', 'fault', 'error', 'gen') else 'result'),
+                                            'the string NullServer(ostr=True) returns decodes to %s, the %s wire reply to %s'
+                                            % (json.dumps(oout)[:120], proto, json.dumps(wout)[:120]),
+                                            dict(rep, op='ostr-vs-wire', proto=proto, ostr=oout, wire={'recv': wrecv, 'out': wout}, **keep))
                         if not ok:
                             self.t3_fail += 1
                             cls = self.classify(spec, out, wout, recv, wrecv)
@@ -1105,6 +1301,22 @@ class Runner(object):
                                         % (proto, cls, json.dumps(out)[:120], json.dumps(wout)[:120]),
                                         dict(rep, op='null-vs-wire', proto=proto, null={'recv': recv, 'out': out},
                                              wire={'recv': wrecv, 'out': wout}, expected_wire=exp, **keep))
+                m_ = sig.get('member')
+                no_self = bool(m_) and not m_['default_on_null'] and (not pos or pos[0] is None)
+                if no_self and tag == 'pos':
+                    # T3-h a member method without its instance: RespawnError, a Client.ResourceNotFound fault
+                    if out != {'fault': 'Client.ResourceNotFound'}:
+                        self.t3_fail += 1
+                        ctx.finding('member-no-instance', 'a member method called without its instance answers %s' % json.dumps(out),
+                                    dict(rep, op='fault-direct', got=out, want={'fault': 'Client.ResourceNotFound'}))
+                    continue
+                if m_ and m_.get('when') is False and tag == 'pos':
+                    # T3-i the `_when` prerequisite says no: InvalidRequestError, whatever the body would do
+                    if out != {'fault': 'Client.InvalidInput'}:
+                        self.t3_fail += 1
+                        ctx.finding('member-when', 'a member method whose _when prerequisite fails answers %s' % json.dumps(out),
+                                    dict(rep, op='fault-direct', got=out, want={'fault': 'Client.InvalidInput'}))
+                    continue
                 # T3-d raised faults: a Fault keeps its code, anything else is a Server fault (direct caller)
                 if spec['script']['k'] in ('fault', 'error') and tag == 'pos':
                     want = {'fault': spec['script']['code'] if spec['script']['k'] == 'fault' else 'Server'}
@@ -1178,7 +1390,7 @@ class Runner(object):
                 keep = {}
                 wrecv, wout = prog.call_wire(proto, pos, kw, keep)
                 waux = prog.aux_canon()
-                self.add({'op': 'wire.aux', 'proto': proto, 'sig': sig, 'script': spec['script'], 'auxs': auxs,
+                self.add({'op': 'wire.aux', 'proto': proto, 'sig': sig, 'member': sig.get('member'), 'script': spec['script'], 'auxs': auxs,
                           'pos': pos, 'kw': kw}, {'recv': wrecv, 'out': wout, 'aux': waux})
                 ctx.cov['traces_validated_against_impl'] += 1
                 exp = wire_view(sig, out, ctx.facts.get(proto))
@@ -1194,7 +1406,7 @@ class Runner(object):
                                 dict(rep, op='null-vs-wire', proto=proto, null={'recv': recv, 'out': out, 'aux': aux},
                                      wire={'recv': wrecv, 'out': wout, 'aux': waux}, expected_wire=exp, **keep))
         ctx.hit('shape-history:' + shape)
-        self.add({'op': 'null.seq', 'sig': sig, 'script': spec['script'], 'auxs': auxs,
+        self.add({'op': 'null.seq', 'sig': sig, 'member': sig.get('member'), 'script': spec['script'], 'auxs': auxs,
                   'calls': [{'pos': pos, 'kw': kw} for pos, kw in calls]}, {'steps': impl_steps})
 
     def classify(self, spec, out, wout, recv, wrecv):
@@ -1238,6 +1450,8 @@ def run(ctx):
             keep = {}
             wrecv, wout = prog.call_wire(p, w['pos'], w['kw'], keep)
             obs[p] = dict(recv=wrecv, out=wout, **keep)
+            if w.get('ostr'):
+                obs[p]['ostr'] = prog.call_ostr(p, w['pos'], w['kw'])
         ctx.finding(fid, what, dict(op='fact-witness', fact=name, spec=spec, pos=w['pos'], kw=w['kw'], protos=w['protos'],
                                     null={'recv': recv, 'out': out}, wire=obs, measured=f))
     for k, good in GOOD.items():
@@ -1275,9 +1489,25 @@ def run(ctx):
                          [([{'s': 'zobaaa'}], [['s', {'s': 'hobaa'}]], 'kw-over-positional')],
                          [([{'s': 'a'}, {'s': 'b'}, {'s': 'c'}], [], 'too-many-positional')],
                          [([{'s': 'a'}, {'s': 'b'}], [['k', None], ['s', None]], 'kw-none-over-positional')]], t3=False)
+    # how the decorator reads _body_style / _soap_body_style (exhaustive over the spellings below)
+    from spyne import decorator as _deco
+    for b in (None, 'wrapped', 'bare', 'out_bare', 'Bare', 'rpc', 'document', ''):
+        for sb in (None, 'document', 'rpc', 'Document', 'wrapped', ''):
+            kparams = {}
+            if b is not None:
+                kparams['_body_style'] = b
+            if sb is not None:
+                kparams['_soap_body_style'] = sb
+            try:
+                impl = {'ok': _deco._validate_body_style(kparams)}
+            except ValueError:
+                impl = {'error': 'ValueError'}
+            except Exception as e:
+                impl = {'error': type(e).__name__}
+            R.add({'op': 'style', 'body_style': b, 'soap_body_style': sb}, impl)
     for spec, calls in boundary_histories():
         R.run_history(spec, calls)
-    n_sig = 8000 if ctx.thorough else 1200
+    n_sig = 8000 if ctx.thorough else 1000
     import gc
     gc.disable()        # every program creates classes (cycles); collect at chosen points instead of ever more often
     kinds = ['echo', 'echo', 'echo', 'const', 'const', 'none', 'ignored', 'fault', 'error', 'junk', 'gen']
@@ -1295,6 +1525,25 @@ def run(ctx):
         spec = spec_of(sig, ptypes, rtypes, script, 'g%d' % i, with_ctx=rng.random() < 0.3, explicit_style=rng.random() < 0.2)
         groups = gen_calls(rng, sig, ptypes, 2 if not ctx.thorough else 3)
         R.run_program(spec, groups)
+        if i % 3 == 1:
+            # the same signature decorated with renaming / metadata options, through a protocol-less NullServer app, ...
+            ospec = dict(spec, name='o%d' % i, opts=gen_opts(rng, sig, i))
+            R.run_program(ospec, groups[:1])
+        if i % 5 == 2 and sig['style'] != 'bare' and kind not in ('gen', 'junk'):
+            # a member method (@mrpc): `self` travels as the first argument, the class respawns it
+            m = gen_member(rng, i)
+            msig = dict(sig, params=['self'] + [p for p in sig['params'] if p != 'self'], member=m)
+            mptypes = [m['cls']] + ptypes
+            if rng.random() < 0.3:
+                msig['params'] = msig['params'] + ['other_']      # another instance of the same class (SelfReference)
+                mptypes = mptypes + [m['cls']]
+            mrtypes = rtypes
+            if m['self_ref'] and kind == 'echo' and rng.random() < 0.6:
+                mrtypes = [m['cls']]                          # `_returns=SelfReference`: the method returns its own instance
+                msig['returns'] = ret_one(m['cls'])
+            mscript = gen_script(rng, msig, mptypes, mrtypes, mptypes, kind)
+            mspec = spec_of(msig, mptypes, mrtypes, mscript, 'mm%d' % i, with_ctx=rng.random() < 0.5)
+            R.run_program(mspec, gen_calls(rng, msig, mptypes, 2))
         if i % 4 == 0 and kind != 'gen':
             # the same method with 0..2 auxiliary companions, called repeatedly on one kept function object
             hspec = dict(spec, name='h%d' % i, auxs=gen_auxs(rng, sig, ptypes, rng.choice([0, 1, 1, 2])))
